@@ -1,13 +1,16 @@
 -------------------------------- MODULE Gen_Cli --------------------------------
 (* Generator: the full decision table of `dist` and `query` parameter reconciliation with the outcome the definition
    requires.  Parameter tokens: "DEF" = built-in default, "K1" = the database's, "K2" (k differs), "K3" (prefix differs),
-   "K4" (prefix = reverse complement of K3's). *)
+   "K4" (prefix = reverse complement of K3's); a second table uses "K5" / "K6" (prefixes longer than 8 nt sharing their first 8). *)
 EXTENDS Cli, Json, IOUtils, SequencesExt, FiniteSetsExt
+\* the parameter set of the database the `query` rows run against: the first non-default one ("K1" in the main table, "K5" in the
+\* long-prefix table)
+QueryDb == IF "K1" \in Params THEN "K1" ELSE "K5"
 Enc(o) == IF o.ok THEN [ok |-> TRUE, ks |-> o.ks] ELSE [ok |-> FALSE, ks |-> ""]
 EncE(e) == IF e = None THEN "none" ELSE IF e = Partial THEN "partial" ELSE The(e)
 DistRows == { [cmd |-> "dist", explicit |-> EncE(e), q |-> q, r |-> r, expect |-> Enc(DistDef(e, q, r))] :
                 e \in Explicits, q \in QSources, r \in RSources }
-QueryRows == { [cmd |-> "query", explicit |-> "none", q |-> q, r |-> [kind |-> "db", ks |-> "K1"],
-                expect |-> Enc(QueryDef(q, [kind |-> "db", ks |-> "K1"]))] : q \in QSources }
+QueryRows == { [cmd |-> "query", explicit |-> "none", q |-> q, r |-> [kind |-> "db", ks |-> QueryDb],
+                expect |-> Enc(QueryDef(q, [kind |-> "db", ks |-> QueryDb]))] : q \in QSources }
 ASSUME ndJsonSerialize(IOEnv.OUT_FILE, SetToSeq(DistRows \cup QueryRows))
 =============================================================================
